@@ -207,3 +207,139 @@ class PolyDomain(Domain):
             m.trace.append((name, list(args)))
             return self.apps[key][0]
         raise Unsupported("call of %s" % name)
+
+
+# -------------------------------------------------------------- Degree
+class DegreeDomain:
+    """Scaling-degree (homogeneity) domain.  A float is
+        ("hom", d)    homogeneous of degree d (tuple of Fractions) in the scaling parameters,
+        ("const", c)  a literal constant (degree free if c == 0, else degree 0),
+        ("mixed",)    not homogeneous.
+    Every comparison is recorded in m.trace as ("cmp", ok, text): comparing quantities of different degrees - or a
+    quantity of non-zero degree with a constant that is not 'zero-like' (|c| < tiny) - makes the decision depend on the
+    scale of the inputs.  Comparisons are never decided (both branches are explored)."""
+    TINY = 1e-200
+
+    def __init__(self, ninputs):
+        self.n = ninputs
+        self.cmps = []
+        self.notes = []
+        self.k = 0
+
+    def hom(self, *d):
+        return ("hom", tuple(Fraction(x) for x in d))
+
+    def sym(self, name):
+        raise Unsupported("untyped symbol in the degree domain")
+
+    def zero(self):
+        return ("const", 0.0)
+
+    def const(self, fc):
+        return ("const", fc.as_float())
+
+    def from_int(self, i):
+        return ("const", float(i))
+
+    def _deg(self, a):
+        if a[0] == "hom":
+            return a[1]
+        if a[0] == "const":
+            return tuple(Fraction(0) for _ in range(self.n))
+        return None
+
+    def arith(self, op, a, b):
+        if a[0] == "mixed" or b[0] == "mixed":
+            return ("mixed",)
+        if a[0] == "const" and b[0] == "const":
+            x, y = a[1], b[1]
+            try:
+                return ("const", {"fadd": x + y, "fsub": x - y, "fmul": x * y, "fdiv": x / y if y != 0 else float("inf")}[op])
+            except OverflowError:
+                return ("const", float("inf"))
+        da, db = self._deg(a), self._deg(b)
+        if op in ("fmul", "fdiv"):
+            if (a[0] == "const" and a[1] == 0) and op == "fmul":
+                return ("const", 0.0)
+            if b[0] == "const" and b[1] == 0 and op == "fmul":
+                return ("const", 0.0)
+            s = 1 if op == "fmul" else -1
+            return ("hom", tuple(x + s * y for x, y in zip(da, db)))
+        # addition / subtraction
+        if a[0] == "const" and a[1] == 0:
+            return b
+        if b[0] == "const" and b[1] == 0:
+            return a
+        if da == db:
+            return ("hom", da)
+        self.notes.append("sum of quantities of degrees %s and %s" % (self.show(a), self.show(b)))
+        return ("mixed",)
+
+    def neg(self, a):
+        if a[0] == "const":
+            return ("const", -a[1])
+        return a
+
+    def show(self, a):
+        if a[0] == "hom":
+            return "(" + ",".join(str(x) for x in a[1]) + ")"
+        if a[0] == "const":
+            return "const %g" % a[1]
+        return "mixed"
+
+    def fcmp(self, pred, a, b, m):
+        if pred in ("ord", "uno"):
+            return 1 if pred == "ord" else 0
+        ok = True
+        why = ""
+        if a[0] == "mixed" or b[0] == "mixed":
+            ok, why = False, "a non-homogeneous quantity is compared"
+        elif a[0] == "const" and b[0] == "const":
+            ok = True
+        else:
+            for x, y in ((a, b), (b, a)):
+                if y[0] == "const" and x[0] == "hom":
+                    if any(d != 0 for d in x[1]) and not (abs(y[1]) < self.TINY):
+                        ok, why = False, "a quantity of degree %s is compared with the constant %g" % (self.show(x), y[1])
+            if a[0] == "hom" and b[0] == "hom" and a[1] != b[1]:
+                ok, why = False, "quantities of degrees %s and %s are compared" % (self.show(a), self.show(b))
+        self.k += 1
+        self.cmps.append((ok, "%s %s %s" % (self.show(a), pred, self.show(b)), why))
+        return ("cond", ("cmp", self.k))
+
+    def call(self, name, args, m):
+        a = args[0] if args else None
+        if name in ("fabs", "fabsf"):
+            return ("const", abs(a[1])) if a[0] == "const" else a
+        if name in ("sqrt", "sqrtf", "cbrt", "cbrtf"):
+            k = 2 if name.startswith("sqrt") else 3
+            if a[0] == "const":
+                return ("const", abs(a[1]) ** (1.0 / k) * (1 if a[1] >= 0 else -1))
+            if a[0] == "hom":
+                return ("hom", tuple(x / k for x in a[1]))
+            return ("mixed",)
+        if name in ("maxnum", "minnum", "fmax", "fmin", "copysign"):
+            b = args[1]
+            if name == "copysign":
+                return a
+            if a[0] == "const" and b[0] == "const":
+                return ("const", max(a[1], b[1]) if "max" in name else min(a[1], b[1]))
+            if a[0] != "mixed" and b[0] != "mixed":
+                da, db = self._deg(a), self._deg(b)
+                if da == db:
+                    return ("hom", da)
+                if (a[0] == "const" and abs(a[1]) < self.TINY):
+                    return b
+                if (b[0] == "const" and abs(b[1]) < self.TINY):
+                    return a
+                self.notes.append("%s of quantities of degrees %s and %s" % (name, self.show(a), self.show(b)))
+            return ("mixed",)
+        if name == "atan2" and len(args) == 2 and args[0][0] != "mixed" and args[1][0] != "mixed" \
+                and self._deg(args[0]) == self._deg(args[1]):
+            return ("hom", tuple(Fraction(0) for _ in range(self.n)))       # the angle of a scaled vector
+        if name in ("cos", "sin", "acos", "asin", "atan", "tan", "exp", "log", "atan2", "pow", "cosh", "sinh"):
+            if all(x[0] == "const" or (x[0] == "hom" and all(d == 0 for d in x[1])) for x in args):
+                return ("hom", tuple(Fraction(0) for _ in range(self.n)))
+            self.notes.append("%s applied to a quantity of degree %s" % (name, self.show(a)))
+            return ("mixed",)
+        raise Unsupported("call of %s in the degree domain" % name)
